@@ -206,7 +206,7 @@ func init() {
 			if th {
 				return 7
 			}
-			return 5
+			return 6
 		}}
 }
 
